@@ -30,6 +30,7 @@ def run(chk):
     ip = I.Interp(f)
     rule_rank(chk, ip)
     rule_dimension_total(chk, ip)
+    rule_candidates_once(chk)
     fft = chk.anchor("C16.anchor/find_function_type", f.fn("find_function_type", TY), "find_function_type")
     if fft:
         rule_unique(chk, fft)
@@ -429,3 +430,48 @@ def dim_name(d):
         v = d.fields.get("0")
         return "Vector(1)" if v == 1 else "Vector(n)"
     return "Matrix"
+
+
+def rule_candidates_once(chk):
+    """The candidate set of a call is the list of Function symbols of the scope; the tournament never compares a
+    candidate with itself, so an id listed twice beats every rival twice and the call is reported ambiguous, depending
+    on the order of declarations. An id is therefore entered into a scope only where it is created: every call of
+    add_function_to_current_scope / insert_function_in_scope is dominated by the register_function call of the same
+    body (MIR dominance), and insert_function_in_scope adds exactly one symbol per call."""
+    f = chk.facts
+    n = 0
+    for b in f.crates[TY]["bodies"]:
+        if "mir" not in b or b.get("name") in ("add_function_to_current_scope", "insert_function_in_scope"):
+            continue
+        cfg = M.Cfg(b)
+        adds = [(bb, t) for bb, t in cfg.calls() if short(cfg.callee(t) or "") in ("add_function_to_current_scope", "insert_function_in_scope")]
+        if not adds:
+            continue
+        regs = [bb for bb, t in cfg.calls() if short(cfg.callee(t) or "") == "register_function"]
+        owner = short(b.get("parent") or b["path"])
+        # ids handed out by iterating the registry itself are visited once each (Context::new registers the intrinsics)
+        registry_loop_lines = set()
+        for (p_, it_, body_, node_) in F.for_loops(b["thir"]):
+            if body_ is None or not any(x.get("k") == "Field" and x.get("name") == "function_registry" for x in F.walk(it_)):
+                continue
+            if not plain_iter(it_) and not (F.strip(it_).get("k") == "Call" and short(F.strip(it_).get("fn") or "") == "iter"):
+                continue
+            ids_ = {i for i, nm, pth in F.pat_binds(p_)}
+            for c in F.exprs(body_, "Call"):
+                if short(c.get("fn") or "") in ("add_function_to_current_scope", "insert_function_in_scope") and \
+                        any(v["id"] in ids_ for a in c.get("args", [])[1:] for v in F.exprs(a, "Var")):
+                    registry_loop_lines.add(c.get("ln"))
+        for k, (bb, t) in enumerate(adds):
+            ok = any(cfg.dominates(r, bb) for r in regs) or t.get("ln") in registry_loop_lines
+            n += 1
+            chk.ob("C16.candidates/once/%s#%d" % (owner, k), ok, "the id is entered into the scope right after it was created by register_function" if ok else
+                   "%s enters a function id into the scope on a path that did not create it (not dominated by register_function): a re-declared overload is listed twice among the candidates, "
+                   "both copies survive the tournament and the call becomes ambiguous depending on declaration order" % owner, where(b, t.get("ln")))
+    chk.floor("C16.floor/scope-insertions", n, 2, "call sites that enter a function into a scope", TY)
+    ins = f.fn("insert_function_in_scope", TY)
+    if chk.anchor("C16.anchor/insert_function_in_scope", ins, "Context::insert_function_in_scope"):
+        conds = [x for x in F.walk(ins["thir"]) if isinstance(x, dict) and x.get("k") == "If"]
+        pushes = [c for c in F.exprs(ins["thir"], "Call") if short(c.get("fn") or "") in ("push", "insert") and any(a.get("variant") == "Function" for a in F.exprs(c, "Adt"))]
+        ok = not conds and len(pushes) == 2
+        chk.ob("C16.candidates/insert-unconditional", ok, "one symbol added per call (occupied: push, vacant: insert)" if ok else
+               "insert_function_in_scope adds the symbol conditionally (%d condition(s), %d insertion(s)): whether an overload is listed depends on what was declared just before it" % (len(conds), len(pushes)), where(ins))
